@@ -15,20 +15,20 @@ type stdModel func(vc *VC, s *State, call *ast.CallExpr, args []*Term) []*Term
 var stdModels map[string]stdModel
 
 var stdDocs = map[string]string{
-	"fmt.Sprintf":         "fmt.Sprintf: pure; for a literal format and value arguments the result is a deterministic function of the arguments; nothing is modified",
-	"fmt.Errorf":          "fmt.Errorf: returns a non-nil error; nothing is modified",
-	"errors.New":          "errors.New: returns a non-nil error; nothing is modified",
-	"strings.HasPrefix":   "strings.HasPrefix(s, p) reports whether s begins with p",
-	"strings.HasSuffix":   "strings.HasSuffix(s, p) reports whether s ends with p",
-	"strings.TrimSuffix":  "strings.TrimSuffix: pure function of its arguments, result no longer than s",
-	"strings.TrimPrefix":  "strings.TrimPrefix: pure function of its arguments, result no longer than s",
-	"strings.SplitN":      "strings.SplitN(s, sep, n) with n>0 and sep non-empty: 1..n pieces; 1 piece (== s) iff sep does not occur; with n == 2 and sep occurring: s == p0 + sep + p1 and sep does not occur in p0",
-	"strings.LastIndex":   "strings.LastIndex(s, sub): -1 iff sub does not occur, else the greatest i with s[i:i+len(sub)] == sub",
-	"strings.Index":       "strings.Index(s, sub): -1 iff sub does not occur, else the least i with s[i:i+len(sub)] == sub",
-	"strings.Contains":    "strings.Contains(s, sub) == (strings.Index(s, sub) >= 0)",
-	"path/filepath.Ext":   "filepath.Ext: pure function of its argument; result is a suffix of the path",
-	"strconv.Itoa":        "strconv.Itoa: pure, injective",
-	"math.Float64bits":    "math.Float64bits: bijection float64 <-> uint64",
+	"fmt.Sprintf":          "fmt.Sprintf: pure; for a literal format and value arguments the result is a deterministic function of the arguments; nothing is modified",
+	"fmt.Errorf":           "fmt.Errorf: returns a non-nil error; nothing is modified",
+	"errors.New":           "errors.New: returns a non-nil error; nothing is modified",
+	"strings.HasPrefix":    "strings.HasPrefix(s, p) reports whether s begins with p",
+	"strings.HasSuffix":    "strings.HasSuffix(s, p) reports whether s ends with p",
+	"strings.TrimSuffix":   "strings.TrimSuffix: pure function of its arguments, result no longer than s",
+	"strings.TrimPrefix":   "strings.TrimPrefix: pure function of its arguments, result no longer than s",
+	"strings.SplitN":       "strings.SplitN(s, sep, n) with n>0 and sep non-empty: 1..n pieces; 1 piece (== s) iff sep does not occur; with n == 2 and sep occurring: s == p0 + sep + p1 and sep does not occur in p0",
+	"strings.LastIndex":    "strings.LastIndex(s, sub): -1 iff sub does not occur, else the greatest i with s[i:i+len(sub)] == sub",
+	"strings.Index":        "strings.Index(s, sub): -1 iff sub does not occur, else the least i with s[i:i+len(sub)] == sub",
+	"strings.Contains":     "strings.Contains(s, sub) == (strings.Index(s, sub) >= 0)",
+	"path/filepath.Ext":    "filepath.Ext: pure function of its argument; result is a suffix of the path",
+	"strconv.Itoa":         "strconv.Itoa: pure, injective",
+	"math.Float64bits":     "math.Float64bits: bijection float64 <-> uint64",
 	"math.Float64frombits": "math.Float64frombits: inverse of Float64bits",
 }
 
